@@ -69,6 +69,7 @@ def run_job(job, rh, vh, use_cache=True):
     extra = list(job.extra)
     if job.solver == 'cadical': extra += ['--sat-solver', 'cadical']
     elif job.solver == 'kissat': extra += ['--external-sat-solver', 'kissat']
+    elif job.solver == 'cvc5': extra += ['--cvc5']     # via tools/bin/cvc5: --solve-bv-as-int=sum (mul/div kernels)
     r = build.run_cbmc(g, job.harness, defines=job.all_defines(), unwind=job.unwind, unwindset=job.unwindset,
                        timeout=job.timeout, mem_gb=job.mem_gb, function=job.function, extra=extra)
     res.update(cbmc_status=r['status'], solver_wall_s=round(r['time'], 2), n_props=len(r['props']),
